@@ -57,7 +57,7 @@ def gen_helper(seed, tier, focus="C44"):
         return {"kind": kd, "server": ch.randrange(W, ("fs", i), nh), "method": ch.pick(W, ("fm", i), ["allocate_buckets", "write", "close"]),
                 "nth": ch.randint(W, ("fn", i), 1, 4)}
     for i in range(nops):
-        kd = ch.weighted(W, ("k", i), [("hupload", 6), ("concurrent", 2), ("lose-share", 1.2), ("wipe", 2.5), ("restart-helper", 0.8), ("wait", 1.0)])
+        kd = ch.weighted(W, ("k", i), [("hupload", 6), ("concurrent", 2), ("lose-share", 1.2), ("dup-share", 1.2), ("wipe", 2.5), ("restart-helper", 0.8), ("wait", 1.0)])
         if kd == "hupload":
             ops.append(["hupload", ch.randrange(W, ("c", i), 2), fault(i)])
         elif kd == "concurrent":
@@ -66,6 +66,9 @@ def gen_helper(seed, tier, focus="C44"):
                                                                         ["close", n], ["write", ch.randint(W, ("gapw", i), 1, 10)]])])
         elif kd == "lose-share":
             ops.append(["lose-share", ch.randrange(W, ("s", i), nh), ch.randrange(W, ("sh", i), n)])
+        elif kd == "dup-share":
+            # one share number is lost everywhere while another exists twice: as many share copies as before, fewer distinct shares
+            ops.append(["dup-share", ch.randrange(W, ("dsh", i), n), ch.randrange(W, ("dto", i), nh), ch.randrange(W, ("dlost", i), n)])
         elif kd in ("wait", "wipe"):
             ops.append([kd])
         else:
@@ -388,6 +391,19 @@ def exec_helper(case):
                 if os.path.exists(p):
                     os.unlink(p)
                     probe("share-lost")
+            elif kd == "dup-share":
+                _, dsh, dto, dlost = op
+                dsh, dlost = dsh % n, dlost % n
+                holders = [s_ for s_ in hservers if dsh in s_.shares_of(si)]
+                tgt = hservers[dto % nh]
+                if holders and dsh != dlost and dsh not in tgt.shares_of(si):
+                    os.makedirs(os.path.dirname(tgt.share_path(si, dsh)), exist_ok=True)
+                    with open(tgt.share_path(si, dsh), "wb") as f_:
+                        f_.write(holders[0].shares_of(si)[dsh])
+                    for s_ in hservers:
+                        if dlost in s_.shares_of(si):
+                            os.unlink(s_.share_path(si, dlost))
+                    probe("share-duplicated-another-lost")
             elif kd == "restart-helper":
                 kill_helper("restart op")
                 restart_helper(op[1])
